@@ -401,15 +401,16 @@ META = {
             "inverses and determinants, exactly singular / non-positive inputs against the failure code, pivots on either side of "
             "A_REAL_MIN of each configuration, and full-mantissa matrices against the exact value within the rounding allowance of the "
             "configuration; every array is an exactly-sized pool block between guard bytes. "
-            "LOOP TIE (harness/C08/TieLoop1.v .. TieLoop7.v, 31 theorems re-proved on every run): the LDL^T and Cholesky families - the "
-            "factorisations a_real_ldl / a_real_llt with their early failure return included - and the permutation-free PLU routines "
-            "(L, U, D extraction, forward and backward substitution plain and strided, solve, the inverses with their scratch vector, "
-            "det and lndet: the list of harness/C08/tie_names.txt) are regenerated from the current sources with their 66 loops as "
-            "Fixpoints (tools/c2arr.py) and proved equal to the model FactorDefs.v for every NumOps instance (through the same `adapt` "
-            "as the unrolled tie) and EVERY order that is an a_uint value, every array of any length (an access outside: None on both "
-            "sides); the running pointers of the C are carried as the closed-form indices of the model by the loop lemmas. Not "
-            "regenerated: a_real_plu, plu_P, plu_apply, plu_solve, plu_inv (the sign flip `*sign = -*sign` needs negative integers, "
-            "which c2arr does not represent; plu_det is tied for a non-negative sign).",
+            "LOOP TIE (harness/C08/TieLoop1.v .. TieLoop9.v, 40 theorems re-proved on every run): ALL 40 routines of src/linalg_plu.c, "
+            "linalg_ldl.c and linalg_llt.c - the factorisations a_real_plu (partial pivoting: data-dependent pivot search, row swap "
+            "through a_real_swap of src/math.c, permutation array, `*sign = -*sign`), a_real_ldl and a_real_llt with their early failure "
+            "returns included, P, P_, L, U, D extraction, apply, forward and backward substitution plain and strided, solve, the inverses "
+            "with their scratch vector, det (either sign), lndet, plu_sgndet and ldl_sgndet - are regenerated from the current sources "
+            "with their 83 loops as Fixpoints (tools/c2arr.py) and proved equal to the model FactorDefs.v for every NumOps instance "
+            "(through the same `adapt` as the unrolled tie) and EVERY order that is an a_uint value, every array of any length (an access "
+            "outside: None on both sides); the running pointers of the C are carried as the closed-form indices of the model by the loop "
+            "lemmas; signed int objects (the sign) are carried in Z with every result checked to be an int, so plu_sgndet is tied for "
+            "every sign but INT_MIN (whose negation is undefined in C).",
     "note": "Trusted: Coq kernel/vm_compute with primitive floats and ints; real-number axioms listed by Print Assumptions; "
             "the 'same term, different NumOps record' argument between R and binary64; running-pointer walks modelled by "
             "closed-form cell indices, a_uint as nat; hand-written model tied bit for bit on generated matrices (orders 1-12 "
@@ -419,5 +420,5 @@ META = {
             "factors (x < A_REAL_MIN is false for NaN): treated as outside the property's rounding model and counted in the evidence. "
             "The float and long double builds are not modelled in Rocq: they are covered by the glue run only (generated exact and "
             "well-conditioned matrices; lndet there is compared with a binary64 reference within a float-suited tolerance).",
-    "technique": "Rocq proof over R (loop invariants P_k A = L_k R_k, permutation parity, triangular solves) + the LDL^T/Cholesky families and the permutation-free PLU routines re-translated on every run (orders 0..4, loops unrolled, callees inlined) and proved equal to the model for all entries + bit-exact primitive-float model vs C correspondence + exact-rational residual oracle + the same routines and the two factorisations re-translated with their loops as Fixpoints and proved equal to the model for every order",
+    "technique": "Rocq proof over R (loop invariants P_k A = L_k R_k, permutation parity, triangular solves) + the LDL^T/Cholesky families and the permutation-free PLU routines re-translated on every run (orders 0..4, loops unrolled, callees inlined) and proved equal to the model for all entries + bit-exact primitive-float model vs C correspondence + exact-rational residual oracle + all 40 routines, the three factorisations (partial pivoting included) among them, re-translated with their loops as Fixpoints and proved equal to the model for every order",
 }
